@@ -114,6 +114,15 @@ FpGrids == IF Thorough THEN {E4, N5, F5, E5} ELSE {E4, N5, F5}
 \* coefficients: small integers and eighths
 FrC(n, o, v) == [r \in 1..n |-> [k \in 1..(o + 1) |-> R(((5 * r + 3 * k + 2 * v) % 11) - 5, IF (r + k) % 2 = 0 THEN 1 ELSE 2)]]
 FpSpl(S, o, v) == SplOn(S, o, IF SupNInt(S) = 0 THEN <<>> ELSE FrC(SupNInt(S), o, v))
+\* a grid far from the origin relative to its spacing (still |x| <= 8, spacing >= 1/8): an
+\* expansion about the wrong point or through the monomial basis about 0 loses
+\* (xm/h)^k ~ 56^k units of accuracy here.  Operator application only (the forms' powers of
+\* h = 1/16 do not fit TLC's integers).
+G8 == <<R(7, 1), R(57, 8), R(29, 4), R(15, 2), R(8, 1)>>
+FarExprs == {Xn(1), Xn(2), Xn(3), Dn(1), B2("Prod", Xn(1), Dn(1)), B2("Sum", Dn(2), Xn(1)), S1("SubSR", "T", FromInt(3), Xn(1))}
+FarCases == {[op |-> "FpApply", ast |-> e, a |-> a, fs |-> <<>>,
+              E |-> [app |-> ApplyI(e, a, <<>>)], S |-> [app |-> ApplyAbs(e, a, <<>>)]] :
+               e \in FarExprs, a \in {FpSpl(S, o, 0) : S \in {SupWhole(G8), Sup(G8, 1, 4)}, o \in 0..6}}
 Ops3 == 0..3
 SplsOn(g) == {FpSpl(S, o, 0) : S \in SupportsOn(g), o \in (IF g = F5 THEN 0..1 ELSE Ops3)}
 BigSplsOn(g) == {FpSpl(S, o, v) : S \in {SupWhole(g), Sup(g, 1, Len(g)), Sup(g, 0, 2)}, o \in (IF g = F5 THEN 0..1 ELSE Ops3), v \in {0, 1}}
@@ -177,10 +186,11 @@ IntForeignCases(a) ==
   ELSE {}
 
 Init == \/ st = [ph |-> 0, kind |-> "x"]
+        \/ st = [ph |-> 0, kind |-> "far"]
         \/ \E k \in FpKnots : st = [ph |-> 0, kind |-> "k", k |-> k]
         \/ \E g \in FpGrids : \E a \in SplsOn(g) : st = [ph |-> 0, kind |-> "a", a |-> a]
 Next == /\ st.ph = 0
-        /\ \E c \in (IF st.kind = "k" THEN GenCases(st.k) ELSE IF st.kind = "x" THEN GridSpecialCases ELSE SplCases(st.a) \cup IntForeignCases(st.a)) :
+        /\ \E c \in (IF st.kind = "k" THEN GenCases(st.k) ELSE IF st.kind = "x" THEN GridSpecialCases ELSE IF st.kind = "far" THEN FarCases ELSE SplCases(st.a) \cup IntForeignCases(st.a)) :
               st' = [ph |-> 1, c |-> c]
 Spec == Init /\ [][Next]_st
 Emit == (st'.ph = 1) => CSVWrite("%1$s", <<ToJson(st'.c)>>, OutFile)
@@ -194,7 +204,7 @@ MagnitudeOK == st.ph = 1 =>
   CASE c.op = "FpGen" -> \A i \in DOMAIN c.E : DomSpl(c.E[i], c.S[i])
     [] c.op = "FpEval" -> \A i \in DOMAIN c.E : RLe(RAbs(c.E[i]), c.S[i])
     [] c.op = "FpBin" -> DomSpl(c.E.add, c.S.add) /\ DomSpl(c.E.sub, c.S.sub) /\ DomSpl(c.E.mul, c.S.mul)
-    [] c.op = "FpApply" -> DomSpl(c.E.app, c.S.app) /\ RLe(RAbs(c.E.lf), c.S.lf)
+    [] c.op = "FpApply" -> DomSpl(c.E.app, c.S.app) /\ ("lf" \in DOMAIN c.E => RLe(RAbs(c.E.lf), c.S.lf))
     [] c.op = "FpBF" -> RLe(RAbs(c.E), c.S)
     [] c.op = "FpInt" -> RLe(RAbs(c.E), c.S)
     [] c.op = "FpIntX" -> c.a.g # c.b.g
